@@ -938,6 +938,9 @@ def mk_try(x):
 def mk_unwrap(x):
     if x[0] == 'agg' and isinstance(x[1], tuple) and x[1][0] == 'adt' and x[1][2] in ('Ok', 'Some') and x[2]:
         return x[2][0]
+    if x[0] == 'call' and isinstance(x[1], str) and x[1].startswith('core::num::') and x[1].endswith(('::checked_sub', '::checked_add')) and len(x[2]) == 2:
+        # the value of a successful checked operation is the plain result
+        return mk_bin('Sub' if x[1].endswith('checked_sub') else 'Add', x[2][0], x[2][1])
     return ('unwrap', x)
 
 
